@@ -780,6 +780,18 @@ where
     O: flatcontainer::impls::index::IndexContainer<<I::R as Region>::Index>,
 {
     let mut probes = 0;
+    // positions that wrap around when added to the item's start offset (wrapping builds)
+    for k in 0..4usize {
+        let i = usize::MAX - k;
+        probes += 1;
+        if crate::engine::guard(|| {
+            let _ = item.get(i);
+        })
+        .is_ok()
+        {
+            return Err(format!("{repr} item of {} elements: get(usize::MAX - {k}) returned an element instead of panicking", v.len()));
+        }
+    }
     for i in 0..v.len() + extra {
         probes += 1;
         let r = crate::engine::guard(|| I::check(item.get(i), v.get(i).unwrap_or(&v[0])));
@@ -893,6 +905,17 @@ where
 
 pub fn probe_cols<'a, I: Spec>(item: ReadColumns<'a, I::R>, v: &Vec<I::V>, extra: usize, repr: &str) -> Result<u64, String> {
     let mut probes = 0;
+    for k in 0..4usize {
+        let i = usize::MAX - k;
+        probes += 1;
+        if crate::engine::guard(|| {
+            let _ = item.get(i);
+        })
+        .is_ok()
+        {
+            return Err(format!("{repr} row of {} cells: get(usize::MAX - {k}) returned a cell instead of panicking", v.len()));
+        }
+    }
     for i in 0..v.len() + extra {
         probes += 1;
         if i < v.len() {
